@@ -2350,8 +2350,9 @@ class Parameters:
                     if superseded():
                         break
                     with batch_call_watchers(self_.self):
-                        with _syncing(self_.self, (pname,)):
-                            self_.update({pname: new_obj})
+                        with edit_constant(self_.self):
+                            with _syncing(self_.self, (pname,)):
+                                self_.update({pname: new_obj})
             else:
                 try:
                     new_obj = await awaitable
@@ -2359,8 +2360,9 @@ class Parameters:
                     return
                 if not superseded():
                     with batch_call_watchers(self_.self):
-                        with _syncing(self_.self, (pname,)):
-                            self_.update({pname: new_obj})
+                        with edit_constant(self_.self):
+                            with _syncing(self_.self, (pname,)):
+                                self_.update({pname: new_obj})
         finally:
             # Ensure we clean up but only if the task matches the currrent task
             if async_refs.get(pname) is current_task:
